@@ -122,3 +122,15 @@ def declare(check, na):
     check('C34', 'exploration', 'exhaustive small / boundary / random calls and genotype indices against a transcription of Call.scala / Genotype.scala with constants extracted from the Scala at run time',
           'the Python int32 packing equals the model for every call the model accepts without overflow, decode and index <-> allele pair are inverse; engine-rejected calls are recorded, not judged',
           'trusted: vf/hail_call_model.py (transcription; constants are re-extracted from the Scala sources on every run, extraction failure => INCONCLUSIVE)')
+    check('C17', 'exploration', 'event log of really executed bash jobs under the real LocalBackend + job numbering vs the generator\'s own edge list and a least-fixpoint skip model',
+          'seeded random pipelines (DAGs and cyclic ones, explicit / resource-induced / group edges, always_run and failing sets, random call orders) are built with the real DSL and really run by LocalBackend; numbering, execution order, executed set, skip set, cycle rejection before anything runs and the raised error are compared with the model',
+          'trusted: bash, the 20-line skip model in c17.py, the generator\'s edge list as the dependency relation')
+    check('C18', 'exploration', 'recording fake batch client behind the real ServiceBackend + independent model of resource paths, parents, uploads / downloads and command literal segments',
+          'generated pipelines (inputs, input groups, job files, declared groups, python results, add_extension before / after mention, hostile names, digit probes after references, colliding tokens) are compiled by the real DSL and submitted to a recording client; producer upload location = consumer download location, consumer is a child of the producer, every reference becomes its quoted local path and literal text is unchanged, distinct resources never share a path',
+          'trusted: vf/monitors/c18.py model, the fake client records exactly what aioclient.Batch.create_job receives; an input group whose members would share a path must be refused at declaration')
+    check('C35', 'exploration', 'differential rendering (real CSERenderer vs PlainRenderer) judged by a static scope checker and one reference IR evaluator',
+          'seeded random and catalogued expression / Table DAGs with deliberate Python-object sharing (in and out of lambdas, across StreamAgg / StreamAggScan / If) are built through the real API, rendered by both renderers, scope-checked on every node and evaluated by one reference evaluator; no engine evaluation',
+          'trusted: the scoping rules and evaluator in c35.py, vf/hail_fake_backend.py, vf/gen_hail_ir.py, shims')
+    check('C36', 'exploration', 'construction-time contract hook on Expression.__init__ + top-down IR walk with the repository\'s binding metadata + Table/MatrixTable schema model + literal round trip',
+          'every expression built in generated literal / expression / API / Table / MatrixTable programs is compared with the IR node\'s own type rule re-applied from its children; every emitted IR is walked with binder types; wrappers are compared with the relational IR type and a schema model; "type implied by the IR" is the Python IR rule, not the engine\'s',
+          'trusted: the schema model and IR walk in c36.py, vf/hail_fake_backend.py, shims')
